@@ -295,13 +295,14 @@ def fact_locks : List String := [
     "enterAltScreen|Lock;defer Unlock;r.execute;r.execute;r.execute;r.execute;r.execute",
     "execute|io.WriteString",
     "exitAltScreen|Lock;defer Unlock;r.execute;r.execute;r.execute",
-    "flush|Lock;defer Unlock;r.out.Write;r.buf.Reset",
+    "flush|Lock;defer Unlock",
     "handleMessages|Lock;Unlock;Lock;Unlock;Lock;Unlock;Lock;Unlock;Lock;Unlock",
     "hideCursor|Lock;defer Unlock;r.execute",
     "insertBottom|Lock;defer Unlock;r.out.Write",
     "insertTop|Lock;defer Unlock;r.out.Write",
     "kill|Lock;defer Unlock;r.execute;r.execute",
     "listen|r.flush",
+    "render|r.out.Write;r.buf.Reset",
     "reportFocus|Lock;defer Unlock",
     "setIgnoredLines|Lock;defer Unlock;r.out.Write",
     "setWindowTitle|r.execute",
